@@ -565,6 +565,8 @@ class QubitCircuit:
             self.N,
             reverse_states=self.reverse_states,
             num_cbits=self.num_cbits,
+            user_gates=dict(self.user_gates),
+            dims=list(self.dims),
         )
         temp_resolved = []
 
